@@ -221,6 +221,7 @@ pub fn replay(path: &str, vals: Vec<Vec<u8>>) -> Result<Vec<&'static str>, Strin
         "vmer" => crate::vmer::verif::replay(rest, &mut s),
         "dna_string" => crate::dna_string::verif::replay(rest, &mut s),
         "msp" => crate::msp::verif::replay(rest, &mut s),
+        "compression" => crate::compression::verif::replay(rest, &mut s),
         "graph" => crate::graph::verif::replay(rest, &mut s),
         "filter" => crate::filter::verif::replay(rest, &mut s),
         "bitops_avx2" => crate::bitops_avx2::verif::replay(rest, &mut s),
